@@ -385,4 +385,10 @@ ReaderLexClass(s, nul) == LET b == BeforeNul(s, nul)
 \* what a call of readXML may end in, whatever the bytes of the file are
 \* ---------------------------------------------------------------------------
 SafeOutcomes == {"ok", "runtime_error"}
+
+\* Resource clause of the reader contract: a call of readXML, whether it returns a document or throws, leaves the set of
+\* open files of the process as it found it:  fds' = fds.  Otherwise the answer to a later call would depend on how many
+\* calls went before (a process has a bounded number of descriptors), i.e. not on the bytes of its file alone.
+FdsAfterCall(fds, outcome) == fds
+FdDelta == 0                               \* |fds'| - |fds|, what the drivers observe per call (and over any batch of calls)
 =============================================================================
